@@ -19,6 +19,9 @@ import ast
 import re
 
 from sa.srcmodel import strip_docstring, walk_no_nested
+from sa import sx as sxm
+from sa.spec.variables import VARIABLE_KINDS
+from sa.sx import SX, Sv, Tv, Uv, U, Ov, Seq, Unk, CannotDecide
 
 UNIT_PARAM = {
     'angular position': 'angular_position_unit', 'angular speed': 'angular_speed_unit',
@@ -442,6 +445,41 @@ def _column_ok(sx, e, label, src_suffix, kind, param):
     return True, ''
 
 
+def export_call_facts(model, m):
+    """arguments reaching the export function when Powertrain.export_time_variables runs over a one-element powertrain:
+    ([(args, kwargs, line, _)], {join key -> parts}, number of completing paths)"""
+    sx = SX(model)
+    sx.eval_comprehensions = True
+    sx.variable_kinds = VARIABLE_KINDS
+    sxm.POSITIVE_ATOMS.clear()
+    calls, joins = [], {}
+
+    def hook(sx_, n, f, recv, args, kwargs, st, frame):
+        name = f.id if isinstance(f, ast.Name) else (f.attr if isinstance(f, ast.Attribute) else None)
+        if name == 'export_time_variables' and not isinstance(recv, Ov):
+            calls.append((list(args), dict(kwargs), n.lineno, None))
+            return [(st, sxm.NoneV())]
+        if name == 'join' and isinstance(f, ast.Attribute) and ast.unparse(f.value).endswith('path'):
+            key = f'<join#{len(joins)}>'
+            joins[key] = list(args)
+            return [(st, Unk(key))]
+        return None
+    sx.call_hook = hook
+    el = Ov('el', 'SpurGear', True)
+    env = {'self': Ov('self', 'Powertrain', True), 'folder_path': Sv('<folder>')}
+    for a in m.node.args.args + m.node.args.kwonlyargs:
+        if a.arg.endswith('_unit'):
+            env[a.arg] = Uv(U(sym=a.arg))
+    st = sxm.State(env=env)
+    st.heap[('self', 'elements')] = Tv([el], 'tuple')
+    st.heap[('self', 'time')] = Seq('self.time', ('q', 'Time'))
+    st.heap[('el', 'name')] = Sv('el')
+    frame = {'module': m.module, 'cls': 'Powertrain', 'fn': m.node, 'depth': 0}
+    outs = sx.block(strip_docstring(m.node.body), [st], frame)
+    completes = sum(1 for o in outs if o.kind in ('fall', 'return'))
+    return calls, joins, completes
+
+
 def check_export(model, rep):
     if 'export_time_variables' in model.functions:
         mod, fn = model.functions['export_time_variables']
@@ -466,26 +504,50 @@ def check_export(model, rep):
             rep.decide('index=False' in src, 'C18.export', 'export_time_variables:index', 'the CSV is not written with index=False', loc=loc)
     else:
         rep.cannot('C18.export', 'export_time_variables', 'function not found')
-    # Powertrain.export_time_variables forwards the units
+    # Powertrain.export_time_variables forwards the element, the recorded axis, the units and a path made of the element's name:
+    # decided on the arguments that reach the export function when the method is evaluated for a one-element powertrain
+    # (through helper methods, locals, **dicts - whatever the method is written with)
     m = model.find_member('Powertrain', 'export_time_variables')
     if m is None:
         rep.cannot('C18.export', 'Powertrain.export_time_variables', 'method not found')
         return
-    calls = [n for n in ast.walk(m.node) if isinstance(n, ast.Call) and ast.unparse(n.func).endswith('export_time_variables')]
+    try:
+        calls, joins, completes = export_call_facts(model, m)
+    except CannotDecide as e:
+        rep.cannot('C18.export', 'Powertrain.export_time_variables:forwarding', str(e), m.loc)
+        rep.require('C18.export', 5)
+        return
     ok, why = bool(calls), 'no call of the export utility'
-    for c in calls:
-        for k in c.keywords:
-            if k.arg and k.arg.endswith('_unit'):
-                if not (isinstance(k.value, ast.Name) and k.value.id == k.arg):
-                    ok, why = False, f'{k.arg} is forwarded as `{ast.unparse(k.value)}`: that column is converted and labelled with another variable\'s unit'
-        kws = {k.arg for k in c.keywords}
-        need = {p for p in set(UNIT_PARAM.values()) if p} | {'time_unit'}
-        if not need <= kws:
-            ok, why = False, f'unit parameters {sorted(need - kws)} are not forwarded'
-        ta = [k for k in c.keywords if k.arg == 'time_array']
-        if not ta or ast.unparse(ta[0].value) not in ('self.time', 'self.__time'):
+    if completes and len(calls) < completes:
+        ok, why = False, 'a path through the method completes without exporting the element'
+    fok, fwhy = bool(calls), 'no call of the export function'
+    need = {p for p in set(UNIT_PARAM.values()) if p} | {'time_unit'}
+    for args, kw, line, shown_time in calls:
+        for p_ in sorted(need):
+            v = kw.get(p_)
+            if v is None:
+                ok, why = False, f'unit parameter {p_} is not forwarded'
+            elif not (isinstance(v, Uv) and v.unit.sym == p_):
+                ok, why = False, (f'{p_} is forwarded as `{v.unit.sym if isinstance(v, Uv) else type(v).__name__}`: that column is converted and '
+                                  f'labelled with another variable\'s unit')
+        ta = kw.get('time_array')
+        if ta is None or not (isinstance(ta, Seq) and ta.path == 'self.time'):
             ok, why = False, 'time_array is not the powertrain\'s recorded time axis'
+        ro = kw.get('rotating_object', args[0] if args else None)
+        if not (isinstance(ro, Ov) and ro.path == 'el'):
+            ok, why = False, 'the element exported is not the element of the iteration'
+        fp = kw.get('file_path', args[1] if len(args) > 1 else None)
+        good = False
+        if isinstance(fp, Unk) and fp.text in joins:
+            parts = joins[fp.text]
+            good = bool(parts) and isinstance(parts[-1], Sv) and parts[-1].s == 'el' and not any(
+                isinstance(x, Sv) and 'el' in x.s.replace('<folder>', '') for x in parts[:-1])
+        elif isinstance(fp, Sv):
+            good = fp.s.replace('<folder>', '').count('el') == 1 and fp.s.endswith('el')
+        if not good:
+            fok, fwhy = False, 'the path handed to the export function is not <folder>/<element name> with the name unchanged'
     rep.decide(ok, 'C18.export', 'Powertrain.export_time_variables:forwarding', why, loc=m.loc)
+    rep.decide(fok, 'C18.export', 'Powertrain.export_time_variables:file', fwhy, loc=m.loc, detail='each element is exported to <folder>/<element name>')
     rep.require('C18.export', 5)
 
 
@@ -540,31 +602,6 @@ def check_export_files(model, rep, R='C18.export'):
                 ok, why = False, f'the file written (`{var}`) does not derive from a parameter of the function'
     rep.decide(ok, R, 'export_time_variables:file', why + ': two element names can then share a file and one history is lost' if why else '',
                loc=f'{mod}:{line}', detail='the file written is the given path, with at most a constant suffix appended')
-    # the caller: one call per element, path = join(folder, <element>.name)
-    m = model.member('Powertrain', 'export_time_variables')
-    calls = [x for x in ast.walk(m.node) if isinstance(x, ast.Call) and isinstance(x.func, ast.Name) and x.func.id == 'export_time_variables']
-    ok2, why2, line2 = True, '', m.node.lineno
-    if not calls:
-        ok2, why2 = False, 'no call of the export function'
-    for c in calls:
-        line2 = c.lineno
-        fp = next((k.value for k in c.keywords if k.arg == 'file_path'), c.args[1] if len(c.args) > 1 else None)
-        names = [n for n in ast.walk(fp) if isinstance(n, ast.Attribute) and n.attr == 'name'] if fp is not None else []
-        parents = {id(ch): p for p in ast.walk(fp) for ch in ast.iter_child_nodes(p)} if fp is not None else {}
-        good = False
-        for n in names:
-            p_ = parents.get(id(n))
-            # the name must enter the path as it is: an argument of os.path.join, an operand of + or /, an f-string field
-            if isinstance(p_, ast.Call) and n in p_.args and ast.unparse(p_.func).endswith(('join', 'Path', 'joinpath')):
-                good = True
-            if isinstance(p_, ast.BinOp) and isinstance(p_.op, (ast.Add, ast.Div)):
-                good = True
-            if isinstance(p_, ast.FormattedValue) and p_.format_spec is None and p_.conversion == -1:
-                good = True
-        if not good:
-            ok2, why2 = False, f'the path `{ast.unparse(fp)[:60] if fp is not None else None}` does not contain the element\'s name unchanged'
-    rep.decide(ok2, R, 'Powertrain.export_time_variables:file', why2, loc=f'{m.module}:{line2}',
-               detail='each element is exported to <folder>/<element name>')
 
 
 def check(model, rep):
